@@ -138,7 +138,7 @@ PROPS = {
         module="Evl.Props.C04",
         theorems=["Evl.C04.discipline", "Evl.C04.discipline_ok", "Evl.C04.discipline_nonvacuous", "Evl.C04.one_section", "Evl.C04.roots_mutations_in_section", "Evl.C04.swap_is_one_store",
                   "Evl.C04.lockset_sound'", "Evl.C04.sequential"],
-        runs=[race_run("window"), race_run("registry", 300, 3000, 1000), REGISTRY_RUN], oracle_prefixes=["C04"], models=["M4 Lockset", "M1 Registry", "Generated.Accesses/RegistryFacts"],
+        runs=[race_run("window", 30, 400, 120), race_run("registry", 300, 3000, 1000), REGISTRY_RUN], oracle_prefixes=["C04"], models=["M4 Lockset", "M1 Registry", "Generated.Accesses/RegistryFacts"],
         trusted_base=TB_COMMON + ["gofacts translator: Evl/Generated/*.lean are regenerated from /repo on every run"],
         assumptions=LOCK_ASSUME + M1_ASSUME, rule=LOCK_RULE,
         technique="Lean 4 proof (lock-set soundness theorem + kernel `decide` over facts regenerated from source by a translator) + race-detector concurrency harness as validation/search",
@@ -245,13 +245,13 @@ PROPS = {
     ),
     "C09": dict(
         module="Evl.Props.C09",
-        theorems=["Evl.C09.tag_secure", "Evl.C09.unknown_redacted", "Evl.C09.action_keep_iff", "Evl.C09.filterLeaf_noleak", "Evl.C09.filterOne_noleak", "Evl.C09.filterElems_noleak", "Evl.C09.slice_noleak", "Evl.C09.flat_noleak", "Evl.C09.fail_closed"],
+        theorems=["Evl.C09.tag_secure", "Evl.C09.unknown_redacted", "Evl.C09.action_keep_iff", "Evl.C09.filterLeaf_noleak", "Evl.C09.filterOne_noleak", "Evl.C09.filterElems_noleak", "Evl.C09.slice_noleak", "Evl.C09.flat_noleak", "Evl.C09.fail_closed", "Evl.C09.tree_noleak", "Evl.C09.tree_fail_closed"],
         runs=[ENC_RUN, ENC_TREE_RUN], oracle_prefixes=["C09"], models=["M7 Encrypt (tag resolution, flat structs)", "M7t EncryptTree (nested values)"],
         trusted_base=TB_COMMON, assumptions=ENC_ASSUME, rule=ENC_RULE,
     ),
     "C10": dict(
         module="Evl.Props.C10",
-        theorems=["Evl.C10.shape", "Evl.C10.filterElems_length", "Evl.C10.length_preserved", "Evl.C10.identity"],
+        theorems=["Evl.C10.shape", "Evl.C10.filterElems_length", "Evl.C10.length_preserved", "Evl.C10.identity", "Evl.C10.tree_shape", "Evl.C10.tree_identity"],
         runs=[ENC_RUN, ENC_TREE_RUN], oracle_prefixes=["C10"], models=["M7 Encrypt (flat structs)", "M7t EncryptTree (nested values)"],
         trusted_base=TB_COMMON, assumptions=ENC_ASSUME + ["partial: 'the input is not modified' is decided by the deep before/after snapshot comparison of the harness on every case; Go-level aliasing is outside the value model"],
         rule=ENC_RULE,
